@@ -1,6 +1,7 @@
 #!/bin/bash
 # run.sh <ID> quick|thorough      run the check of property <ID> (exit 0 held / 1 violation / 2 harness error)
 # run.sh replay <file>            replay a recorded violation in a fresh process
+# run.sh determinism [N]          N seeds of every profile in two processes, event-log hashes compared
 # Always rebuilds the harness (and with it fastrace from /repo's working tree, hooks enabled).
 set -u
 export CARGO_NET_OFFLINE=true
@@ -18,6 +19,21 @@ BIN="$VERIF_DIR/target/release/dst"
 case "${1:-}" in
   replay)
     exec "$BIN" replay "$2"
+    ;;
+  determinism)
+    # every profile, N seeds, two processes (one pinned to a core, one free): event-log hashes equal?
+    n="${2:-2000}"; bad=0
+    for p in C01 C02 C03 C04 C05 C06 C07 C08 C09 C10 C11 C13 C14 C15 C16 C17 C18; do
+      "$BIN" hashes --prop $p --from 0 --count "$n" > "$VERIF_DIR/target/det-a.txt" &
+      taskset -c 5 "$BIN" hashes --prop $p --from 0 --count "$n" > "$VERIF_DIR/target/det-b.txt"
+      wait
+      if cmp -s "$VERIF_DIR/target/det-a.txt" "$VERIF_DIR/target/det-b.txt"; then
+        echo "$p: $(wc -l < "$VERIF_DIR/target/det-a.txt") seeds, identical event-log hashes in both processes"
+      else
+        echo "$p: NONDETERMINISM"; diff "$VERIF_DIR/target/det-a.txt" "$VERIF_DIR/target/det-b.txt" | head -4; bad=1
+      fi
+    done
+    [ $bad = 0 ] && exit 0 || exit 2
     ;;
   C[0-9][0-9])
     id="$1"; tier="${2:-${VERIF_TIER:-quick}}"
